@@ -23,6 +23,8 @@ def make_jobs(ctx):
     B2 = "PATH_MAX = 16, guest paths <= 8 bytes, table view of <= 4 entries, descriptor paths <= 3 characters"
     jobs.append(wasi_job(ctx, "W.path_rename", src, "h_rename", ["wasi.c:path_rename", "wasi.c:wasiPathRename"], defines=["GMEM=32"], unwind=34, bounded=B2))
     jobs.append(wasi_job(ctx, "W.path_symlink", src, "h_symlink", ["wasi.c:path_symlink", "wasi.c:wasiPathSymlink"], defines=["GMEM=32"], unwind=34, bounded=B2))
+    jobs.append(wasi_job(ctx, "W.path_symlink.long_target", src, "h_symlink", ["wasi.c:path_symlink", "wasi.c:wasiPathSymlink"], defines=["GMEM=32", "VH_PATH_MAX=8", "L1MAX=10", "L2MAX=3"], unwind=34,
+                         bounded="PATH_MAX = 8, link targets of 0..10 bytes (so: shorter than, exactly, and longer than PATH_MAX), link paths <= 3 bytes"))
     jobs.append(wasi_job(ctx, "W.fd_readdir", src, "h_readdir", ["wasi.c:fd_readdir", "wasi.c:wasiFDReaddir"], defines=["GMEM=56"], unwind=58,
                          unwindset="wasiFDReaddir.0:5,h_readdir.3:5", timeout=(1200 if ctx.tier == "thorough" else 400),
                          bounded="ghost directory of <= 3 entries (names 1..3 bytes, any inode, type in {reg,dir,lnk,chr,blk}), buffer 0..40 bytes, every cookie in 0..count"))
